@@ -152,8 +152,13 @@ def install(s):
         # the two asynchronous solves of one lower-bound step are tasks 2m and 2m+1: their footprints must not interfere
         if k % 2 == 1 and (k - 1) in st.tasks:
             r1, w1 = st.tasks[k - 1]; r2, w2 = st.tasks[k]
+            def mine(oid):
+                # bookkeeping globals of the stub environment (e.g. the stopping criteria last handed to the solver model) are not
+                # part of the code under test
+                return (e.mod.oid_name.get(oid) or '').startswith('@__verif')
             def overlap(A, B):
                 for (o, off, nb) in A:
+                    if mine(o): continue
                     for (o2, off2, nb2) in B:
                         if o == o2 and off < off2 + nb2 and off2 < off + nb: return (o, off)
                 return None
